@@ -186,6 +186,13 @@ def cond_truth(c, env, margin):
     return {"<=": diff < 0, "<": diff < 0, ">=": diff > 0, ">": diff > 0, "=": False}[c[1]]
 
 
+def exact_truth(c, env):
+    l, r = fr(c[2], env), fr(c[3], env)
+    if l is None or r is None:
+        return None
+    return {"<=": l <= r, "<": l < r, ">=": l >= r, ">": l > r, "=": l == r}[c[1]]
+
+
 class SimplifyConditions(Harness):
     name = "c13-conditions"
     prop = "C13"
@@ -202,10 +209,15 @@ class SimplifyConditions(Harness):
         for i in range(n):
             a, b, c = rnd.sample(FL, 3)
             k = [rnd.choice(COEFFS) for _ in range(6)]
-            ineqs = [f"(<= (+ (* {k[0]} {a}) (* {k[1]} {b})) {k[2]})", f"(>= (* {k[3]} (* {a} {c})) (- {b} {k[4]}))", f"(< (- {a} {b}) (* {k[5]} {c}))"][:rnd.randint(1, 3)]
-            eqs = [f"(= (+ {a} {b}) {k[2]})", f"(= (+ {c} (* {k[1]} {a})) 0)"][:rnd.randint(0, 2)]
+            ineqs = [f"(<= (+ (* {k[0]} {a}) (* {k[1]} {b})) {k[2]})", f"(>= (* {k[3]} (* {a} {c})) (- {b} {k[4]}))", f"(< (- {a} {b}) (* {k[5]} {c}))",
+                     f"(> {a} (- {k[2]} {b}))", f"(< (+ {a} {b}) {k[2]})"]
+            rnd.shuffle(ineqs)
+            ineqs = ineqs[:rnd.randint(1, 3)]
+            neq = rnd.randint(0, 2)
+            eqs = [f"(= (+ {a} {b}) {k[2]})", f"(= (+ {c} (* {k[1]} {a})) 0)"][:neq]
             for d in digits:
-                yield {"conds": ineqs + eqs, "digits": d}
+                # "solve": how to make the equalities hold exactly: a := k2 - b, c := -k1 * a
+                yield {"conds": ineqs + eqs, "digits": d, "solve": {"a": a, "b": b, "c": c, "k1": k[1], "k2": k[2], "n": neq}}
 
     def nontrivial_key(self, inp):
         return str(inp) if len(inp["conds"]) >= 2 else None
@@ -247,14 +259,28 @@ class SimplifyConditions(Harness):
         rnd = random.Random(hash(str(inp)) & 0xffff)
         eqs_in = [c for c in spec_in if c[1] == "="]
         out = []
+        sv = inp.get("solve")
+
+        def key_of(text):
+            a_ = SX.read_text(text)
+            return (a_[0], tuple(a_[1:]))
         for env in envs_for(fls, rnd, k=24):
-            # make the equalities hold exactly is not possible on a fixed grid: compare only the inequalities on points where
-            # no equality is involved, or the whole set's truth when there is none
             if eqs_in:
-                continue
+                if not sv:
+                    continue
+                # valuations on which the (linear) equalities hold exactly: a := k2 - b (and c := -k1 * a)
+                ka, kb, kc = key_of(sv["a"]), key_of(sv["b"]), key_of(sv["c"])
+                if kb not in env:
+                    continue
+                env = dict(env)
+                env[ka] = Fraction(sv["k2"]) - env[kb]
+                if sv["n"] >= 2:
+                    env[kc] = -Fraction(sv["k1"]) * env[ka]
+                elif kc not in env:
+                    env[kc] = Fraction(1)
             margin = 3 * Fraction(1, 2) * Fraction(1, 10 ** d) * (sum(mono_bound(c[2], env) + mono_bound(c[3], env) for c in spec_in) + 1)
-            tin = [cond_truth(c, env, margin) for c in spec_in]
-            tout = [cond_truth(c, env, margin) for c in spec_out]
+            tin = [exact_truth(c, env) for c in spec_in if c[1] != "="]      # the originals are exact; only outputs are rounded
+            tout = [cond_truth(c, env, margin) for c in spec_out if c[1] != "="]
             if None in tin or None in tout:
                 continue
             if all(tin) != all(tout):
